@@ -589,14 +589,20 @@ class PlanJoinTablesQuery:
         if item.conditions:
             row_dict = {}
             for i, el in enumerate(item.conditions):
-                if isinstance(el.args[0], Identifier) and el.op == '=':
-                    col_name = el.args[0].parts[-1]
+                if el.op != '=':
+                    continue
+                arg1, arg2 = el.args
+                if not isinstance(arg1, Identifier):
+                    # 'x' = col
+                    arg1, arg2 = arg2, arg1
+                if isinstance(arg1, Identifier):
+                    col_name = arg1.parts[-1]
                     if col_name.lower() == predict_target:
                         # don't add predict target to parameters
                         continue
 
-                    if isinstance(el.args[1], (Constant, Parameter)):
-                        row_dict[el.args[0].parts[-1]] = el.args[1].value
+                    if isinstance(arg2, (Constant, Parameter)):
+                        row_dict[col_name] = arg2.value
 
                     # exclude condition
                     el._orig_node.args = [Constant(0), Constant(0)]
@@ -609,7 +615,8 @@ class PlanJoinTablesQuery:
             for param, value in query_in.using.items():
                 if '.' in param:
                     alias = param.split('.')[0]
-                    if (alias,) in item.aliases:
+                    # aliases are in lower case
+                    if (alias.lower(),) in item.aliases:
                         new_param = '.'.join(param.split('.')[1:])
                         model_params[new_param.lower()] = value
                 else:
